@@ -32,7 +32,7 @@ def config_point(rng, accel=None, dedicated_bias=0.0):
         sc, mm = rng.choice(cands)
         o.update(config=ARM_INI, system_config=sc, memory_mode=mm)
     if rng.random() < 0.6:
-        o["arena"] = rng.choice([4096, 8192, 16384, 32768, 65536, 131072, 393216, 2097152])
+        o["arena"] = rng.choice([4096, 6144, 8192, 16384, 28000, 32768, 65536, 131072, 393216, 2097152])
     if rng.random() < 0.3:
         o["align"] = rng.choice([16, 32, 64, 128, 256])
     return o
@@ -239,8 +239,136 @@ def f_u8i16(rng, seed):
     return "int16", n.desc([y])
 
 
+def f_widen(rng, seed):
+    """elementwise chains that change the bit width (structurally valid, unusual)"""
+    n = Net(seed)
+    H, W, C = rng.choice([4, 8]), rng.choice([4, 8]), rng.choice([8, 16])
+    kind = rng.choice(["ADD", "MUL"])
+    wide = rng.choice(["INT16", "INT32"])
+    a = n.fm("a", [1, H, W, C], is_input=True)
+    b = n.fm("b", [1, H, W, C], scale=0.03, is_input=True)
+    c = n.fm("c", [1, H, W, C], scale=0.04, is_input=True)
+    d = n.fm("d", [1, H, W, C], wide, 0.001, 0, is_input=True)
+    t1 = n.eltwise(kind, a, b)
+    t2 = n.eltwise(kind, t1, c, oscale=0.001, ozp=0)
+    n.t[t2]["type"] = wide
+    out = n.eltwise(kind, t2, d, oscale=0.002, ozp=0)
+    n.t[out]["type"] = wide
+    return "widen:%s-%s" % (kind, wide), n.desc([out])
+
+
+def f_inplace(rng, seed):
+    """elementwise operators whose inputs stay live (in-place fusing must not happen)"""
+    n = Net(seed)
+    H, W, C = rng.choice([4, 8, 16]), rng.choice([4, 8]), rng.choice([8, 16])
+    style = rng.choice(["abs_then_add", "protected_second_operand", "unary_chain_fanout", "mul_self_later"])
+    if style == "abs_then_add":
+        x = n.fm("in", [1, H, W, C], is_input=True)
+        t = n.conv(x, C, 3)
+        u = n.unary("ABS", t)
+        outs = [n.eltwise("ADD", u, t)]
+    elif style == "protected_second_operand":
+        a = n.fm("a", [1, H, W, C], is_input=True)
+        sb = n.fm("s", [1, 1, 1, C], scale=0.02, is_input=True)
+        b = n.eltwise(rng.choice(["SUB", "ADD", "MUL"]), sb, a)
+        cpu = n.fm("cpu_out", [1, H, W, C], n.t[a]["type"], 0.05, 0)
+        n.op(rng.choice(["FLOOR_DIV", "FLOOR_MOD"]), [a, b], [cpu])
+        outs = [cpu]
+    elif style == "unary_chain_fanout":
+        x = n.fm("in", [1, H, W, C], is_input=True)
+        t = n.conv(x, C, 1)
+        u = n.unary("LEAKY_RELU", t)
+        v = n.unary("ABS", u)
+        outs = [n.eltwise("ADD", v, t), u]
+    else:
+        x = n.fm("in", [1, H, W, C], is_input=True)
+        t = n.conv(x, C, 3)
+        u = n.eltwise("MUL", t, t)
+        outs = [n.eltwise("SUB", u, t)]
+    return "inplace:" + style, n.desc(outs)
+
+
+def f_lutmany(rng, seed):
+    """many distinct lookup tables, a 1 KiB table (int8 softmax) in between, then reuse of an earlier table"""
+    n = Net(seed)
+    C = rng.choice([16, 32])
+    x = n.fm("in", [1, C], is_input=True)
+    k = rng.randint(5, 7)
+    alphas = [0.05 + 0.03 * i for i in range(k)]
+    for al in alphas:
+        x = n.unary("LEAKY_RELU", x, alpha=al)
+    if rng.random() < 0.8:
+        x = n.unary("SOFTMAX", x)
+    x = n.unary("LEAKY_RELU", x, alpha=rng.choice(alphas[-2:]))
+    x = n.unary("LEAKY_RELU", x, alpha=alphas[0])
+    return "lutmany:%d" % k, n.desc([x])
+
+
+def f_resize(rng, seed):
+    n = Net(seed)
+    H, W, C = rng.choice([4, 8]), rng.choice([16, 48, 64]), rng.choice([8, 16, 24])
+    x = n.fm("in", [1, H, W, C], is_input=True)
+    kind = rng.choice(["RESIZE_BILINEAR", "RESIZE_BILINEAR", "RESIZE_NEAREST_NEIGHBOR"])
+    half = rng.random() < 0.6
+    y = n.resize(x, kind, 2, align=(not half and rng.random() < 0.3), half=half)
+    if rng.random() < 0.5:
+        y = n.conv(y, C, 1)
+    return "resize:%s%s" % (kind[7:10], "-half" if half else ""), n.desc([y])
+
+
+def f_pruned(rng, seed):
+    """wide convolution with whole filters pruned to zero: depth slices of very different encoded sizes"""
+    n = Net(seed)
+    H = W = rng.choice([4, 8])
+    C = rng.choice([32, 64])
+    oc = rng.choice([136, 168, 200])
+    x = n.fm("in", [1, H, W, C], is_input=True)
+    y = n.conv(x, oc, 3)
+    w = n.t[n.o[-1]["inputs"][1]]
+    zs = []
+    for _ in range(rng.randint(1, 3)):
+        a = rng.randrange(0, oc - 16, 8)
+        zs.append([a, min(oc, a + rng.choice([16, 24, 48]))])
+    w["data"]["zero_filters"] = zs
+    return "pruned:%d" % oc, n.desc([y])
+
+
+def f_diamonds(rng, seed):
+    """two time-disjoint groups of competing feature maps (fast-storage allocation), bigger group first or second"""
+    n = Net(seed)
+    H, W, C = rng.choice([8, 16]), rng.choice([8, 16]), rng.choice([8, 16])
+    x = n.fm("in", [1, H, W, C], is_input=True)
+
+    def diamond(t, k):
+        a = n.conv(t, C, k)
+        b = n.conv(t, C, 1)
+        return n.eltwise("ADD", a, b)
+    d1 = diamond(x, 3)
+    p = n.pool(d1, "MAX_POOL_2D") if rng.random() < 0.5 else d1
+    d2 = diamond(p, 1)
+    outs = [d2, d1] if rng.random() < 0.5 else [d1, d2]
+    return "diamonds", n.desc(outs)
+
+
+def f_stride3(rng, seed):
+    """producer -> stride-3 consumer chains (rolling buffers with a consumer stride of 3)"""
+    n = Net(seed)
+    H = rng.choice([10, 13, 19, 12, 16])
+    W = rng.choice([8, 16, 64])
+    C = rng.choice([8, 16, 32])
+    x = n.fm("in", [1, H, W, C], is_input=True)
+    y = n.conv(x, C, 3)
+    if rng.random() < 0.5:
+        y = n.pool(y, "MAX_POOL_2D", k=3, stride=3)
+    else:
+        y = n.dwconv(y, 3, stride=3)
+    y = n.conv(y, C, 1)
+    return "stride3:H%d" % H, n.desc([y])
+
+
 FAMILIES = {"single": f_single, "chain": f_chain, "branch": f_branch, "mixed": f_mixed, "lut": f_lut,
-            "wide": f_wide, "u8i16": f_u8i16}
+            "wide": f_wide, "u8i16": f_u8i16, "widen": f_widen, "inplace": f_inplace, "lutmany": f_lutmany,
+            "resize": f_resize, "pruned": f_pruned, "diamonds": f_diamonds, "stride3": f_stride3}
 
 
 def all_singles(seed, accel=None):
